@@ -256,6 +256,6 @@ def run(tier, seed):
 MANIFEST = {
     "engine": "E",
     "technique": "exhaustive enumeration of all ordered pairs of capability and node objects over a small value alphabet, compared with the identity relation on capability strings",
-    "text": "Every capability kind with several key values is built twice independently, bare and wrapped in every node class (immutable, literal, mutable, directory, unknown); every ordered pair is compared with ==, != and hash() on the real classes and the results are checked against equality of the capability strings.",
+    "text": "Every capability kind with several key values is built twice independently, bare and wrapped in every node class (immutable, literal, mutable, directory, unknown); every ordered pair is compared with ==, != and hash() on the real classes and the results are checked against equality of the capability strings. The universe also holds DERIVED forms: the read-cap / verify-cap of the write-/read-cap object with the same value index, as URI, file node and directory node.",
     "note": "Small scope (2-4 values per kind). CiphertextFileNode and UnknownURI compare by object identity; the statement does not cover them (no capability string accessor / not a known capability), they are counted only.",
 }
